@@ -14,6 +14,7 @@ CONSTANTS
   Weak_AbsenceRawKey = FALSE
   Weak_NoParamsHashCompare = FALSE
   Weak_ValsNotHashed = FALSE
+  Weak_BackwardsTargetNotRechecked = FALSE
   Weak_SearchProofFromCachedBlock = TRUE
 INIT CaseInit
 NEXT CaseNext
